@@ -1,5 +1,7 @@
 SPECIFICATION Spec
 CONSTANTS
   MLens = {0, 1, 15, 16, 17, 33}
+  Rooms = {0, 3}
+  WholeBuffer = FALSE
 INVARIANTS VariantAgreement RoundTrip TamperRejected RejectReleasesNothing ShortIsError Emit
 CHECK_DEADLOCK FALSE
